@@ -4,7 +4,7 @@
    implementation saw it (cookies already decoded by the harness with the
    deployment's own codec), the random values it drew, the provider's answer
    and the observed response. *)
-From VF Require Import Base.Prelude Model.Cache Model.Session Model.Middleware.
+From VF Require Import Base.Prelude Model.Cache Model.Session Model.Middleware Spec.Url.
 Open Scope N_scope.
 
 Record wstep := mkStep {
@@ -205,7 +205,18 @@ Fixpoint first_diff (E : env) (cfg : config) (insts : list (N * inst)) (steps : 
 
 Definition insts0 (c : wcase) : list (N * inst) := map (fun e => (fst e, inst_of (snd e))) (wc_insts c).
 
+(* the environment tables of a case must denote real strings and tokens: the
+   executable form of Proofs/WorldBase.env_ok on the strings the case mentions *)
+Definition env_check (c : wcase) : bool :=
+  let E := env_of c in
+  negb (ti_static (tok E 0))
+  && forallb (fun e => Nat.leb 1 (snd e)) (wc_chunks c)
+  && forallb (fun e => negb (ti_static (snd e)) || ti_claims (snd e)) (wc_toks c)
+  && list_N_eqb (bytes_of E slash) [47]
+  && forallb (fun e => negb (local_path E (fst e)) || same_origin_path (bytes_of E (snd e))) (wc_redir c).
+
 Definition wmismatch (c : wcase) : bool :=
+  negb (env_check c) ||
   match first_diff (env_of c) (wc_cfg c) (insts0 c) (wc_steps c) 0 with Some _ => true | None => false end.
 
 Definition wids_where (p : wcase -> bool) (l : list wcase) : list N := map wc_id (filter p l).
